@@ -231,6 +231,10 @@ def run(ctx):
         ctx.ob('AGREE', f'{nm}: one entry per piece of the split (arguments forwarded)', f2, ok,
                {'generator_call': [e.text()[:100] for e in g], 'returned': pretty(r.ret)[:300] if r.ret is not None else None},
                node=f2.node, construct=f'{nm} loop')
+    # every split reads the layout of the file as it is at the time of the call
+    from .common import memo_obligation
+    ctx.clause = 'D1'
+    memo_obligation(ctx, ctx.func('split_utils.split_waterfall_generator'), 'each split reads the file layout afresh')
 
 
 META = {
